@@ -215,9 +215,11 @@ CHECKS = {
   text=("check : Prog -> Bool abstractly executes every grammar function (current-token sets, facts about locals, consumed-since flags, call "
         "summaries with ranks); check_sound_safe and check_sound_terminates are proved once for all programs; glas_checked evaluates the checker on "
         "the program regenerated from parser.rs (decide +kernel). Hence for every token list: no assert! fails, bump is never called at end of input, "
-        "every loop iteration and recursion cycle consumes a token, fuel 746+745*len suffices (C02_safe, C02_terminates). PARTIAL: the parser's own "
-        "look-ahead guard (`parser is stuck`) and recursion depth are NOT bounded on the current tree - kernel-evaluated witnesses in "
-        "Props/C02Witness.lean, replayed on the implementation and listed in known_findings.json. Mark discipline (Props/C02Marks.lean): a second "
+        "every loop iteration and recursion cycle consumes a token, fuel 746+745*len suffices (C02_safe, C02_terminates). PARTIAL: recursion depth is NOT bounded on the current tree (kernel-evaluated witness depth_witness in "
+        "Props/C02Witness.lean, replayed on the implementation, listed in known_findings.json); the parser's own look-ahead guard (`parser is stuck`) fired on deep nesting "
+        "(two recorded findings) until /repo fix e83622f (a finished node refills the budget; the model's `close` follows, stuck_repaired) - that it can no longer fire at all is "
+        "explored (deep, wide and half-typed families), not proved. The hand-written semantics of the DSL primitives (bump, nth, start/finish_node, expect, ...) are pinned to the source: "
+        "xlate compares the token text of every primitive method of impl Parser with xlate/primitives.expected and refuses the translation otherwise. Mark discipline (Props/C02Marks.lean): a second "
         "certificate checker mcheck (live marks of each frame as a stack ordered by event position, opened/closed; start_node_before only on the "
         "topmost closed mark; exactly the topmost mark passed to a callee; nothing opened left at any exit) with mcheck_sound proved for all "
         "programs and glas_marks_checked evaluated on the regenerated program: no stale or empty mark is ever used, no node is left unfinished, "
